@@ -1148,3 +1148,110 @@ def lemma_root_within_tolerance():
 
 
 LEMMAS = [("root-within-sizing-tolerance", lemma_root_within_tolerance)]
+
+
+# ---- run-time form of RowWiseModifiedBisectionSearch.search: real method, stubbed field generator and oracle --------
+def _rw_check(a):
+    import ghedesigner.search_routines as sr
+    from ghedesigner.simulation import SimulationParameters
+
+    area, n_star, cont_flag, perimeter = a["area"], a["n_star"], a["cont"], a.get("perimeter")
+    noise = a.get("noise", {})
+
+    def field_for(spacing):
+        n = max(1, int(area / (spacing * spacing)))
+        side = max(1, int(n ** 0.5))
+        return [[(i % side) * spacing, (i // side) * spacing] for i in range(n)], f"S{spacing:.4f}"
+
+    def ex_of(n):
+        base = (n_star - n) * 0.37 + (0.11 if n < n_star else -0.13)
+        return base + noise.get(str(n), 0.0)
+
+    saved = (sr.field_optimization_fr, sr.field_optimization_wp_space_fr, sr.gen_shape)
+    sr.field_optimization_fr = lambda spacing, rs, pb, ng_zones=None, rotate_start=None, rotate_stop=None: field_for(spacing)
+    sr.field_optimization_wp_space_fr = lambda p, spacing, rs, pb, ng_zones=None, rotate_start=None, rotate_stop=None: field_for(spacing)
+    sr.gen_shape = lambda pb, ng: (pb, ng)
+    try:
+        b = object.__new__(sr.RowWiseModifiedBisectionSearch)
+
+        class GC:
+            min_spacing, max_spacing, spacing_step, rotate_step = a["smin"], a["smax"], a.get("step", 0.5), 15.0
+            property_boundary, no_go_boundaries, min_rotation, max_rotation = [[0, 0]], [], -1.0, 1.0
+            perimeter_spacing_ratio = perimeter
+
+        b.geometricConstraints = GC()
+        b.sim_params = SimulationParameters(1, 12, 35.0, 5.0, HMAX, HMIN, continue_if_design_unmet=cont_flag)
+        b.max_iter, b.disp, b.searchTracker = 10, False, []
+        b.advanced_tracking = [["TargetSpacing", "Field Specifier", "nbh", "ExcessTemperature"]]
+        b.checkedFields = []
+        b.probed = []
+
+        class _B:
+            H = HMAX
+
+        class _Bhe:
+            b = _B()
+
+        class Fake:
+            bhe = _Bhe()
+
+            def compute_g_functions(self):
+                pass
+
+            def size(self, method=None):
+                self.bhe.b.H = a.get("sized", 100.0)
+
+        def calculate_excess(coords, h, field_specifier="N/A"):
+            b.probed.append(len(coords))
+            b.ghe = Fake()
+            return ex_of(len(coords))
+
+        def initialize_ghe(coords, h, field_specifier="N/A"):
+            b.ghe = Fake()
+
+        b.calculate_excess, b.initialize_ghe = calculate_excess, initialize_ghe
+        n_up, n_lo = len(field_for(a["smin"])[0]), len(field_for(a["smax"])[0])
+        t_up, t_lo = ex_of(n_up), ex_of(n_lo)
+        try:
+            sel, spec = b.search()
+        except ValueError:
+            ok = (t_up > 0 and t_lo > 0 and not cont_flag)
+            return ok, {"why": "ValueError although a design exists or the continue flag is set", "outcome": "ValueError", "t": [t_up, t_lo]}
+        except Exception as e:
+            return False, {"why": f"search raised {type(e).__name__}: {e}", "signature": f"rowwise-{type(e).__name__}", "t": [t_up, t_lo], "n": [n_up, n_lo]}
+        n_sel = len(sel)
+        if t_up > 0 and t_lo > 0:
+            if not cont_flag:
+                return False, {"why": "no candidate meets the limits, continue flag off, yet a design was returned"}
+            return n_sel == n_up, {"why": f"loads too large: the largest field ({n_up}) expected, got {n_sel}"}
+        if not ex_of(n_sel) < 0:
+            return False, {"why": f"returned field with {n_sel} boreholes is infeasible at max height (excess {ex_of(n_sel)})", "probed": b.probed[:30]}
+        if t_lo < 0 and t_up < 0 and not noise:
+            feas = [n for n in set(b.probed) if ex_of(n) < 0]
+            if n_sel > min(feas):
+                return False, {"why": f"a probed feasible field with {min(feas)} boreholes is smaller than the returned {n_sel}"}
+        return True, {"n": n_sel}
+    finally:
+        sr.field_optimization_fr, sr.field_optimization_wp_space_fr, sr.gen_shape = saved
+
+
+def _rw_gen(rng):
+    smin = rng.choice([3.0, 4.0, 5.0])
+    smax = smin + rng.choice([2.0, 5.0, 10.0])
+    area = rng.choice([400.0, 1500.0, 6000.0])
+    n_up, n_lo = max(1, int(area / smin ** 2)), max(1, int(area / smax ** 2))
+    r = rng.random()
+    if r < 0.25:
+        n_star = n_up + rng.randint(1, 30)  # nothing fits
+    elif r < 0.6:
+        n_star = rng.randint(n_lo + 1, max(n_lo + 1, n_up))  # between the two bounding fields
+    else:
+        n_star = rng.randint(1, n_lo)  # even the sparsest field is oversized: borehole removal arm (incl. n_star == n_lo)
+        if rng.random() < 0.3:
+            n_star = n_lo
+    return {"area": area, "smin": smin, "smax": smax, "n_star": n_star, "cont": rng.random() < 0.5, "perimeter": rng.choice([None, 0.8]),
+            "sized": round(rng.uniform(HMIN, HMAX), 1)}
+
+
+native(f"{S}:RowWiseModifiedBisectionSearch.search", _rw_check, _rw_gen, None,
+       bound="real RowWise search() with a stubbed field generator (count ~ area/spacing^2) and a monotone table-driven oracle: nothing fits / threshold between the bounding fields / borehole-removal arm incl. 'only the full sparsest field passes'; both policies; with/without perimeter ratio")
